@@ -35,7 +35,7 @@ PROBES = ["final-sample clamp fired (total > N t)", "null mean hit 0 before cut"
           "null mean negative before cut", "cut at 1", "cut at n-1", "truncation lowered the k-th entry",
           "call raised", "whole-number sample handed over as ints", "rounds evaluated on views of one buffer",
           "SPRT alternative recovered from two futures", "alternative recovered from two futures", "bet recovered from two futures",
-          "sample longer than 4096 draws",
+          "sample longer than 4096 draws", "buffer refilled in place with another sample and evaluated again",
           "estimator / bettor asked again after another sample of the same length was tested"]
 
 
@@ -191,6 +191,21 @@ def execute(case):
                 out.violate("C05.b", path + "/shared-buffer",
                             f"after the first {k} draws were evaluated, the history of all {n} draws in the same buffer is "
                             f"{h2[:4]}..., on a fresh copy {a[1][:4]}... (N={N}); buffer changed: {not np.array_equal(buf, keep)}")
+            # the caller refills the same array with another sample (a pre-allocated buffer) and evaluates it again
+            z = (fork + x[::-1])[:n]
+            if z != x:
+                buf[:] = np.array(z, dtype=float)
+                with warnings.catch_warnings():
+                    warnings.simplefilter("ignore")
+                    with np.errstate(all="ignore"):
+                        p3, h3 = tst.test(buf)
+                h3 = np.asarray(h3, dtype=float)
+                fresh = _call(out, tst, z, case)
+                out.probe("buffer refilled in place with another sample and evaluated again")
+                if fresh is not None and len(h3) == len(fresh[1]) and any(not tight(u_, v_) for u_, v_ in zip(h3, fresh[1])):
+                    out.violate("C05.b", path + "/refilled-buffer",
+                                f"a buffer refilled in place with {z[:4]}... gives the history {h3[:4]}...; the same sample in a fresh "
+                                f"array gives {fresh[1][:4]}... (N={N})")
         except Exception as e:
             out.raised("test(view)", e)
     if a is not None:
